@@ -78,7 +78,7 @@ def check(R, cases, name):
 
 def run(R):
     R.rule = ("cases = (alias table, source): every table over the names {a, b} with values of up to MaxVal tokens (with / without "
-              "trailing blank; self-reference, mutual recursion, cycles through blank-terminated values), and three-level chains over {a, b, c}, x every source of up to "
+              "trailing blank; self-reference, mutual recursion, cycles through blank-terminated values), empty values, three-level chains over {a, b, c}, command substitutions in the source, x every source of up to "
               "MaxSrc tokens over names, plain / quoted / assignment words, reserved words and operators; distinct_nontrivial = "
               "distinct cases in which at least one substitution took place")
     R.assumptions = ["token-level model: sources and values are blank-separated tokens; alias names are plain words",
@@ -88,10 +88,12 @@ def run(R):
         cases += gen(R, 1, 3, ["a", "b", "w"], ["a", "b", "w", "'a'", "x=1", ";"], "alias1b")
         cases += gen(R, 1, 3, ["a", "b", ";", "x=1", "if", "!"], ["a", "b", "w", "|", "!", "if", "then", "fi", ";"], "alias2")
         cases += gen(R, 2, 3, ["a", "b", "c", "w"], ["a", "c", "w", ";"], "alias3", tables=TABLES3)
+        cases += gen(R, 1, 4, ["a", "b", "w"], ["a", "b", "w", "$(", ")"], "alias4")
     else:
         cases = gen(R, 2, 3, ["a", "b", "w"], ["a", "b", "w", "'a'", "x=1", ";"], "alias1")
         cases += gen(R, 2, 3, ["a", "b", ";", "x=1", "if", "!"], ["a", "b", "w", "|", "!", "if", "then", "fi", ";"], "alias2")
         cases += gen(R, 2, 4, ["a", "b", "c", "w"], ["a", "c", "w", ";"], "alias3", tables=TABLES3)
+        cases += gen(R, 1, 5, ["a", "b", "w"], ["a", "b", "w", "$(", ")"], "alias4")
     recs = check(R, cases, "al")
     R.evaluations = len(recs) * 2
     R.traces = len(recs)
